@@ -495,7 +495,7 @@ func TestVerifC10(t *testing.T) {
 						if len(cl) <= 1 && mmT.EntSize == 24 && len(mmT.Entries) <= 1 && fi < 3 {
 							perms = vfPerms(len(tags)) // every tag order on the small ones
 						} else if run.Thorough() {
-							perms = [][]int{nil, vfReverse(len(tags))}
+							perms = vfPerms(len(tags)) // thorough: every tag order on every block
 						}
 						for _, perm := range perms {
 							ord := tags
@@ -581,7 +581,7 @@ func TestVerifC10(t *testing.T) {
 		big().runCase(run, vf10Case{Tags: []vfTag{{Kind: "elf", BigSecs: n}}, Seq: "e"})
 		big().runCase(run, vf10Case{Tags: []vfTag{{Kind: "cmdline", Cmdline: "x"}, {Kind: "elf", BigSecs: n}, mmaps[2]}})
 	}
-	run.Finish(true, "9 command lines x 24 memory maps (entry size {24,28,32,40}, 0-3 entries, every type in {0..6, 2^32-1}, extreme addresses/lengths) x 4 ELF tables x framebuffer {none, RGB 32/16/15/24, EGA, indexed, unknown type} x unknown tag of size {none,0,3,5} (padding); every tag order on the small blocks; duplicate tags appended; each tag alone; 16 presence subsets x every sequence of <=4 accessor calls; section tables of 1022..4097 (thorough: ..65534) headers; every block flush against an inaccessible page",
+	run.Finish(true, "9 command lines x 24 memory maps (entry size {24,28,32,40}, 0-3 entries, every type in {0..6, 2^32-1}, extreme addresses/lengths) x 4 ELF tables x framebuffer {none, RGB 32/16/15/24, EGA, indexed, unknown type} x unknown tag of size {none,0,3,5} (padding); every tag order on the small blocks (thorough: on every block); duplicate tags appended; each tag alone; 16 presence subsets x every sequence of <=4 accessor calls; section tables of 1022..4097 (thorough: ..65534) headers; every block flush against an inaccessible page",
 		"distinct = (tag order, block size); every decoded field is compared with the AST the block was generated from")
 }
 
